@@ -323,7 +323,7 @@ func (ip *Interp) prepareCall(fr *frame, call *ssa.CallCommon, site ssa.Instruct
 	return fn, args
 }
 
-const maxDepth = 400
+const maxDepth = 3000
 
 func (ip *Interp) callSSA(caller *frame, fn *ssa.Function, args []Value, env []Value) Value {
 	name := fn.String()
